@@ -26,6 +26,8 @@ HARNESS = os.path.join(VERIF, "harness")
 BUILD = os.path.join(VERIF, ".build")
 REPO = os.environ.get("VERIF_REPO", "/repo")
 NCPU = os.cpu_count() or 4
+# results of runs against another tree (seeded changes) never overwrite the evidence of /repo
+OUTDIR = VERIF if REPO == "/repo" else os.environ.get("VERIF_OUT", "/tmp/verif_alt_out")
 
 GOENV = dict(os.environ, GOFLAGS="-mod=mod", GOPROXY="off", GOSUMDB="off", GOTOOLCHAIN="local",
              CGO_ENABLED=os.environ.get("CGO_ENABLED", "0"))
@@ -43,8 +45,21 @@ def log(*a):
 
 def build_harness(race=False):
     os.makedirs(BUILD, exist_ok=True)
-    shutil.copyfile(os.path.join(REPO, "go.sum"), os.path.join(HARNESS, "go.sum"))
     name = "lqh-race" if race else "lqh"
+    src = HARNESS
+    tmp = None
+    if REPO != "/repo":
+        # a scratch copy of the harness module bound to another tree (seeded changes in a worktree)
+        tmp = tempfile.mkdtemp(prefix="harness_")
+        for f in glob.glob(os.path.join(HARNESS, "*.go")):
+            shutil.copy(f, tmp)
+        with open(os.path.join(HARNESS, "go.mod")) as f:
+            mod = f.read().replace("=> /repo", "=> " + REPO)
+        with open(os.path.join(tmp, "go.mod"), "w") as f:
+            f.write(mod)
+        src = tmp
+        name += "-" + hashlib.sha1(REPO.encode()).hexdigest()[:8]
+    shutil.copyfile(os.path.join(REPO, "go.sum"), os.path.join(src, "go.sum"))
     out = os.path.join(BUILD, "%s.%d" % (name, os.getpid()))
     env = dict(GOENV)
     cmd = ["go", "build", "-o", out]
@@ -52,9 +67,11 @@ def build_harness(race=False):
         env["CGO_ENABLED"] = "1"
         cmd.append("-race")
     cmd.append(".")
-    p = subprocess.run(cmd, cwd=HARNESS, env=env, capture_output=True, text=True)
+    p = subprocess.run(cmd, cwd=src, env=env, capture_output=True, text=True)
+    if tmp:
+        shutil.rmtree(tmp, ignore_errors=True)
     if p.returncode != 0:
-        raise Infra("harness build failed (does /repo compile?):\n" + p.stdout + p.stderr)
+        raise Infra("harness build failed (does %s compile?):\n" % REPO + p.stdout + p.stderr)
     final = os.path.join(BUILD, name)
     os.replace(out, final)
     return final
@@ -436,7 +453,7 @@ def finish(ctx, level="model_checking", rule="", assumptions=None, checker_cmd="
             for o, exp, note in new_viol:
                 f.write(json.dumps({"case": o, "expected": exp, "note": note}) + "\n")
     if new_viol:
-        rdir = os.path.join(VERIF, "replays", ctx.prop)
+        rdir = os.path.join(OUTDIR, "replays", ctx.prop)
         os.makedirs(rdir, exist_ok=True)
         for i, (o, exp, note) in enumerate(new_viol[:20]):
             path = os.path.join(rdir, "%s_%d_%d.json" % (ctx.tier, ctx.seed, i))
@@ -461,8 +478,8 @@ def finish(ctx, level="model_checking", rule="", assumptions=None, checker_cmd="
     cov.update(ctx.extra_cov)
     ev = {"property_id": ctx.prop, "tier": ctx.tier, "seed": ctx.seed, "level": level, "coverage": cov,
           "assumptions": assumptions or [], "wall_s": round(wall, 2), "violations": len(new_viol)}
-    os.makedirs(os.path.join(VERIF, "evidence"), exist_ok=True)
-    with open(os.path.join(VERIF, "evidence", ctx.prop + ".json"), "w") as f:
+    os.makedirs(os.path.join(OUTDIR, "evidence"), exist_ok=True)
+    with open(os.path.join(OUTDIR, "evidence", ctx.prop + ".json"), "w") as f:
         json.dump(ev, f, indent=1)
     if new_viol:
         for (o, exp, note), path in list(zip(new_viol, replay_paths))[:8]:
